@@ -303,7 +303,10 @@ func (i *FSTIterator) Close() error { return nil }
 // GetMinKey / GetMaxKey return the smallest / largest key (nil for an empty FST).
 func (f *FST) GetMinKey() ([]byte, error) {
 	if len(f.keys) == 0 {
-		return nil, nil
+		// like the real one (v1.0.7): the walk indexes the first transition of a
+		// root that has none: runtime panic, index out of range
+		var none []byte
+		_ = none[len(f.keys)-1+len(none)]
 	}
 	return append([]byte(nil), f.keys[0]...), nil
 }
